@@ -197,12 +197,6 @@ theorem groups_superpose_partial (kind : Kind) (s : K) (cs : List (Cpt K)) (ws :
 
 /-! ### scaling ONE source -/
 
-theorem killAll_scale (a : K) (t : List (Cpt K)) : (killAll t).map (Cpt.mapSrc (fun v => a * v)) = killAll t := by
-  simp only [killAll, List.map_map]
-  apply List.map_congr_left
-  intro c _
-  simp [Function.comp, mapSrc_mapSrc]
-
 /-- **scaling_one_source**: in the single-source netlist of a component (every OTHER independent quantity killed, as
     `kill_except` builds it; `pre`/`post` are the components listed before/after it) scaling that one source by `a`
     scales the whole response by `a`. -/
@@ -217,12 +211,24 @@ theorem scaling_one_source (kind : Kind) (s a : K) (pre post : List (Cpt K)) (c 
     netlist with `c` scaled — the contribution of the scaled source, and only it, scales (what the harness oracle
     checks: total + (a − 1)·part). -/
 theorem scaling_one_of_many (kind : Kind) (s a : K) (pre post : List (Cpt K)) (c : Cpt K) (x0 x1 : Ix → K)
-    (hshape : List.Forall₂ SameShape (pre ++ c.zeroSrc :: post) (killAll pre ++ c.mapSrc (fun v => a * v) :: killAll post))
     (h0 : Solves kind s (pre ++ c.zeroSrc :: post) x0)
     (h1 : Solves kind s (killAll pre ++ c :: killAll post) x1) :
     Solves kind s (List.zipWith Cpt.addSrc (pre ++ c.zeroSrc :: post)
-      (killAll pre ++ c.mapSrc (fun v => a * v) :: killAll post)) (fun i => x0 i + a * x1 i) :=
-  superposition kind s _ _ x0 _ hshape h0 (scaling_one_source kind s a pre post c x1 h1)
+      (killAll pre ++ c.mapSrc (fun v => a * v) :: killAll post)) (fun i => x0 i + a * x1 i) := by
+  have hshape : List.Forall₂ SameShape (pre ++ c.zeroSrc :: post)
+      (killAll pre ++ c.mapSrc (fun v => a * v) :: killAll post) := by
+    refine List.rel_append (sameShape_killAll pre) (List.Forall₂.cons ?_ (sameShape_killAll post))
+    unfold SameShape Cpt.zeroSrc; rw [mapSrc_mapSrc, mapSrc_mapSrc]
+  exact superposition kind s _ _ x0 _ hshape h0 (scaling_one_source kind s a pre post c x1 h1)
+
+/-- non-vacuity of `srcKinds_partition` on a CANCELLING source `2 − 2 + cos 3t`: the code reports only the ω = 3 group,
+    the hypotheses hold (texpr form; s = 1 is a regular point) and the single reported part carries the whole value -/
+example : srcKinds ⟨"V1", "1", "0", .texpr, [.dc 2, .dc (-2), .ac 3 1 0]⟩ = [.ac 3] := by decide +kernel
+example : RegularPoint (1 : ℚ) [.dc 2, .dc (-2), .ac 3 1 0] :=
+  ⟨one_ne_zero, by
+    intro t ht w a b h
+    simp only [List.mem_cons, List.mem_nil_iff, or_false] at ht
+    rcases ht with rfl | rfl | rfl <;> cases h <;> norm_num⟩
 
 /-- non-vacuity: 2 + 3 cos 2t + sin 2t + 5 x₀ is split over the groups dc, ω = 2, transient -/
 example : termKinds [.dc 2, .ac 2 3 0, .tr 0 5, .ac 2 0 1] = [.dc, .transient, .ac 2] := by decide +kernel
